@@ -478,3 +478,228 @@ Proof.
     exists N, F. split; [exact Hparse|]. split; [reflexivity|].
     intros u. apply dimacs_roundtrip_proved; [apply shm_in_range_valid; assumption|exact PN|exact PM].
 Qed.
+
+(* ------------------------------------------------------------------ *)
+(* G. totality                                                          *)
+(* ------------------------------------------------------------------ *)
+Lemma shm_finish_no_crash env o N F d : shm_finish env o N F d <> ShmCrash /\ shm_finish env o N F d <> ShmOutside.
+Proof.
+  unfold shm_finish. destruct d as [rs rest| |]; try (split; discriminate).
+  destruct (shm_args (so_nop o) (so_nov o) (so_noc o) N (len F) rs) as [[fl pm] cp].
+  destruct (shuffle N F fl pm cp); split; discriminate.
+Qed.
+
+(* after the repair: no argv, no input text, no stream reaches a crash *)
+Theorem shm_total_repaired env argv stdin oracle : cnfshuffle_main_repaired env argv stdin oracle <> ShmCrash.
+Proof.
+  unfold cnfshuffle_main_repaired, cnfshuffle_main_gen, shm_run.
+  destruct (shm_plan_of true env argv stdin) as [o N F|r] eqn:Ep.
+  - apply shm_finish_no_crash.
+  - apply shm_plan_stop in Ep as [->|[->|[_ [E _]]]]; discriminate.
+Qed.
+
+(* as found: the only crash is the OverflowError of `[1] * N` under -p with N >= 2^63 *)
+Theorem shm_crash_only_overflow env argv stdin oracle :
+  cnfshuffle_main_env env argv stdin oracle = ShmCrash ->
+  exists o N F, shm_parse_args env argv = PaOk o /\
+                parse_dimacs true (shm_input_text env o stdin) = DOk N F /\ so_nop o = true /\ shm_word <= N.
+Proof.
+  unfold cnfshuffle_main_env, cnfshuffle_main_gen, shm_run.
+  destruct (shm_plan_of false env argv stdin) as [o N F|r] eqn:Ep.
+  - intros H. exfalso. revert H. apply shm_finish_no_crash.
+  - intros ->. apply shm_plan_stop in Ep as [E|[E|[_ [_ E]]]]; try discriminate. exact E.
+Qed.
+
+(* the two programs differ only there *)
+Lemma shm_plan_repaired env argv stdin :
+  shm_plan_of true env argv stdin = shm_plan_of false env argv stdin \/
+  (shm_plan_of false env argv stdin = PlanStop ShmCrash /\ shm_plan_of true env argv stdin = PlanStop ShmCliError).
+Proof.
+  unfold shm_plan_of. destruct (shm_parse_args env argv) as [o| | |]; auto.
+  destruct (match so_input o with Some f => shm_mem f (so_outs o) | None => false end); auto.
+  destruct (parse_dimacs true (shm_input_text env o stdin)) as [N F|e k]; auto.
+  destruct (so_nop o && (shm_word <=? N)); auto.
+Qed.
+Theorem shm_repaired_agrees env argv stdin oracle :
+  cnfshuffle_main_env env argv stdin oracle <> ShmCrash ->
+  cnfshuffle_main_repaired env argv stdin oracle = cnfshuffle_main_env env argv stdin oracle.
+Proof.
+  unfold cnfshuffle_main_env, cnfshuffle_main_repaired, cnfshuffle_main_gen.
+  destruct (shm_plan_repaired env argv stdin) as [E|[E1 E2]].
+  - rewrite E. reflexivity.
+  - rewrite E1. cbn [shm_run]. intros H. contradiction H. reflexivity.
+Qed.
+
+(* a run that gets to its draws and finds them all writes a formula: the ValueError branch after Shuffle is dead *)
+Theorem shm_run_outputs rep env argv stdin oracle o N F :
+  shm_plan_of rep env argv stdin = PlanRun o N F ->
+  match shm_draws (shm_bounds (so_nop o) (so_nov o) (so_noc o) N (len F)) oracle with
+  | DrOk _ _ => exists t, cnfshuffle_main_gen rep env argv stdin oracle = ShmOut (so_output o) t
+  | DrEnd => cnfshuffle_main_gen rep env argv stdin oracle = ShmOracleEnd
+  | DrBad => cnfshuffle_main_gen rep env argv stdin oracle = ShmOracleBad
+  end.
+Proof.
+  intros Hp. unfold cnfshuffle_main_gen, shm_run. rewrite Hp. cbn [shm_plan_bounds]. unfold shm_finish.
+  destruct (shm_draws (shm_bounds (so_nop o) (so_nov o) (so_noc o) N (len F)) oracle) as [rs rest| |] eqn:Ed;
+    try reflexivity.
+  destruct (shm_args (so_nop o) (so_nov o) (so_noc o) N (len F) rs) as [[fl pm] cp] eqn:Ea.
+  destruct (shm_plan_run _ _ _ _ _ _ _ Hp) as (_ & Hparse & _).
+  destruct (shm_parse_ok _ _ _ _ Hparse) as (HN & _).
+  destruct (shm_shuffle_succeeds o N F rs rest oracle fl pm cp HN Ed Ea) as (n & out & ->).
+  eexists. reflexivity.
+Qed.
+
+(* ------------------------------------------------------------------ *)
+(* H. the draws: a function of (switches, N, M); nothing else of the stream matters *)
+(* ------------------------------------------------------------------ *)
+Definition shm_forget_rest (d : shm_dr (list Z)) : shm_dr (list Z) :=
+  match d with DrOk rs _ => DrOk rs [] | DrEnd => DrEnd | DrBad => DrBad end.
+
+Lemma shm_finish_forget env o N F d : shm_finish env o N F (shm_forget_rest d) = shm_finish env o N F d.
+Proof. destruct d; reflexivity. Qed.
+
+(* the output depends on the stream only through the results of the _randbelow calls whose bounds are
+   [shm_plan_bounds]: by definition a function of the switches, the number of variables and of clauses *)
+Theorem shm_output_by_draws rep env argv stdin o1 o2 :
+  let bs := shm_plan_bounds (shm_plan_of rep env argv stdin) in
+  shm_forget_rest (shm_draws bs o1) = shm_forget_rest (shm_draws bs o2) ->
+  cnfshuffle_main_gen rep env argv stdin o1 = cnfshuffle_main_gen rep env argv stdin o2.
+Proof.
+  cbv zeta. unfold cnfshuffle_main_gen, shm_run. destruct (shm_plan_of rep env argv stdin) as [o N F|r]; [|reflexivity].
+  intros H. rewrite <- (shm_finish_forget env o N F (shm_draws _ o1)), H. apply shm_finish_forget.
+Qed.
+
+Theorem shm_bounds_of_plan rep env argv stdin o N F :
+  shm_plan_of rep env argv stdin = PlanRun o N F ->
+  shm_plan_bounds (shm_plan_of rep env argv stdin) =
+    (if so_nop o then [] else repeat 2 (Z.to_nat N)) ++
+    (if so_nov o then [] else shm_down (Z.to_nat N - 1)) ++
+    (if so_noc o then [] else shm_down (Z.to_nat (len F) - 1)).
+Proof. intros ->. reflexivity. Qed.
+
+Lemma shm_down_length i : length (shm_down i) = i.
+Proof. induction i as [|i IH]; cbn [shm_down length]; congruence. Qed.
+Lemma shm_down_bounds i b : In b (shm_down i) -> 2 <= b <= Z.of_nat i + 1.
+Proof.
+  induction i as [|i IH]; cbn [shm_down In]; [tauto|]. intros [<-|H]; [lia|]. apply IH in H. lia.
+Qed.
+
+(* number of _randbelow calls and their bounds *)
+Theorem shm_bounds_count nop nov noc N M : 0 <= N -> 0 <= M ->
+  len (shm_bounds nop nov noc N M) =
+    (if nop then 0 else N) + (if nov then 0 else Z.max 0 (N - 1)) + (if noc then 0 else Z.max 0 (M - 1)) /\
+  Forall (fun b => 2 <= b <= Z.max 2 (Z.max N M)) (shm_bounds nop nov noc N M).
+Proof.
+  intros HN HM. unfold shm_bounds, shm_choice_bounds, shm_shuffle_bounds, len. split.
+  - rewrite !app_length. destruct nop, nov, noc; cbn [length]; rewrite ?repeat_length, ?shm_down_length; lia.
+  - apply Forall_forall. intros b Hb. apply in_app_or in Hb as [Hb|Hb]; [|apply in_app_or in Hb as [Hb|Hb]].
+    + destruct nop; [destruct Hb|]. apply repeat_spec in Hb. lia.
+    + destruct nov; [destruct Hb|]. apply shm_down_bounds in Hb. lia.
+    + destruct noc; [destruct Hb|]. apply shm_down_bounds in Hb. lia.
+Qed.
+
+(* what follows the values that are read does not matter *)
+Theorem shm_unused_draws rep env argv stdin oracle extra dest t :
+  cnfshuffle_main_gen rep env argv stdin oracle = ShmOut dest t ->
+  cnfshuffle_main_gen rep env argv stdin (oracle ++ extra) = ShmOut dest t.
+Proof.
+  intros H. rewrite <- H. apply shm_output_by_draws. cbv zeta.
+  apply shm_core in H as (o & N & F & rs & rest & fl & pm & cp & out & Hplan & Hd & _).
+  rewrite Hplan. cbn [shm_plan_bounds]. rewrite (shm_draws_app extra _ _ _ _ Hd), Hd. reflexivity.
+Qed.
+
+(* ------------------------------------------------------------------ *)
+(* I. runs against a generator                                          *)
+(* ------------------------------------------------------------------ *)
+Section Gen.
+  Context {G : Type} (bits : Z -> G -> Z * G).
+  (* getrandbits(k) returns a value in [0, 2^k) *)
+  Definition shm_bits_ok : Prop := forall k g, 0 <= k -> 0 <= fst (bits k g) < 2 ^ k.
+  Lemma shm_bitlen_nonneg n : 0 <= shm_bitlen n.
+  Proof. unfold shm_bitlen. destruct (n <=? 0); [lia|]. pose proof (Z.log2_nonneg n). lia. Qed.
+
+  Lemma shm_gen_randbelow_replay (Hb : shm_bits_ok) e : forall fuel n g r rec g',
+    shm_gen_randbelow bits fuel n g = Some (r, rec, g') -> shm_randbelow n (rec ++ e) = DrOk r e.
+  Proof.
+    induction fuel as [|f IH]; intros n g r rec g' H; cbn [shm_gen_randbelow] in H; [discriminate|].
+    pose proof (Hb (shm_bitlen n) g (shm_bitlen_nonneg n)) as Hr. destruct (bits (shm_bitlen n) g) as [x g1]. cbn [fst] in Hr.
+    destruct (x <? n) eqn:En.
+    - inversion H; subst. cbn [app shm_randbelow].
+      replace ((r <? 0) || (2 ^ shm_bitlen n <=? r)) with false by lia. rewrite En. reflexivity.
+    - destruct (shm_gen_randbelow bits f n g1) as [[[v rc] g2]|] eqn:E; [|discriminate].
+      inversion H; subst. cbn [app shm_randbelow].
+      replace ((x <? 0) || (2 ^ shm_bitlen n <=? x)) with false by lia. rewrite En. eapply IH. exact E.
+  Qed.
+
+  Lemma shm_gen_draws_replay (Hb : shm_bits_ok) fuel : forall bs e g rs rec g',
+    shm_gen_draws bits fuel bs g = Some (rs, rec, g') -> shm_draws bs (rec ++ e) = DrOk rs e.
+  Proof.
+    induction bs as [|b bs IH]; intros e g rs rec g' H; cbn [shm_gen_draws] in H.
+    - inversion H; subst. reflexivity.
+    - destruct (shm_gen_randbelow bits fuel b g) as [[[r rec1] g1]|] eqn:E1; [|discriminate].
+      destruct (shm_gen_draws bits fuel bs g1) as [[[rs' rec2] g2]|] eqn:E2; [|discriminate].
+      inversion H; subst. cbn [shm_draws]. rewrite <- app_assoc.
+      rewrite (shm_gen_randbelow_replay Hb (rec2 ++ e) _ _ _ _ _ _ E1).
+      rewrite (IH e _ _ _ _ E2). reflexivity.
+  Qed.
+
+  (* a run of the tool against a generator IS the model on the stream of values getrandbits returned
+     during that run, and the model reads that stream to its end: recording and replaying is exact *)
+  Theorem shm_run_is_replay (Hb : shm_bits_ok) seed_fn fuel env argv stdin g0 r :
+    cnfshuffle_run bits seed_fn fuel env argv stdin g0 = Some r ->
+    exists oracle, cnfshuffle_main_env env argv stdin oracle = r /\
+                   (forall dest t, r = ShmOut dest t -> shm_draws_used env argv stdin oracle = Some (len oracle)).
+  Proof.
+    unfold cnfshuffle_run, cnfshuffle_main_env, cnfshuffle_main_gen, shm_run, shm_draws_used.
+    destruct (shm_plan_of false env argv stdin) as [o N F|r0] eqn:Ep.
+    - set (g := match shm_seed_installed o with Some s => seed_fn s | None => g0 end).
+      destruct (shm_gen_draws bits fuel (shm_bounds (so_nop o) (so_nov o) (so_noc o) N (len F)) g)
+        as [[[rs rec] g']|] eqn:Eg; [|discriminate].
+      intros H. inversion H; subst r. exists rec. cbn [shm_plan_bounds].
+      pose proof (shm_gen_draws_replay Hb fuel _ [] _ _ _ _ Eg) as Hd. rewrite app_nil_r in Hd.
+      rewrite Hd. split; [reflexivity|]. intros _ _ _. unfold len. cbn [length]. f_equal. lia.
+    - intros H. inversion H; subst r. exists []. split; [reflexivity|].
+      intros dest t E. apply shm_plan_stop in Ep as [E'|[E'|[E' _]]]; rewrite E' in E; discriminate.
+  Qed.
+
+  (* with a seed on the command line (not the empty string) the run does not depend on the state
+     the generator was in *)
+  Theorem shm_seeded_runs_agree seed_fn fuel env argv stdin :
+    (forall o, shm_parse_args env argv = PaOk o -> shm_seed_installed o <> None) ->
+    forall g1 g2, cnfshuffle_run bits seed_fn fuel env argv stdin g1 = cnfshuffle_run bits seed_fn fuel env argv stdin g2.
+  Proof.
+    intros Hs g1 g2. unfold cnfshuffle_run.
+    destruct (shm_plan_of false env argv stdin) as [o N F|r0] eqn:Ep; [|reflexivity].
+    apply shm_plan_run in Ep as (Ha & _). specialize (Hs o Ha).
+    destruct (shm_seed_installed o); [reflexivity|contradiction].
+  Qed.
+End Gen.
+
+(* without a seed (or with the empty string as seed) the output depends on the state: a toy generator *)
+Definition shm_toy_bits (k : Z) (g : Z) : Z * Z := (g mod 2 ^ k, g + 1).
+Lemma shm_toy_bits_ok : shm_bits_ok shm_toy_bits.
+Proof.
+  intros k g Hk. unfold shm_toy_bits. cbn [fst]. apply Z.mod_pos_bound. apply Z.pow_pos_nonneg; lia.
+Qed.
+
+(* ------------------------------------------------------------------ *)
+(* J. the three switches, each on its own                               *)
+(* ------------------------------------------------------------------ *)
+Theorem shm_options_independent rep env argv stdin oracle dest t :
+  cnfshuffle_main_gen rep env argv stdin oracle = ShmOut dest t ->
+  exists o N F out sigma,
+    shm_parse_args env argv = PaOk o /\
+    parse_dimacs true (shm_input_text env o stdin) = DOk N F /\
+    (forall u, parse_dimacs u t = DOk N out) /\
+    signed_map N sigma /\ Permutation out (map (map sigma) F) /\
+    (so_nop o = true -> forall l, inrange N l -> (0 < sigma l <-> 0 < l)) /\
+    (so_nov o = true -> forall l, inrange N l -> Z.abs (sigma l) = Z.abs l) /\
+    (so_noc o = true -> out = map (map sigma) F).
+Proof.
+  intros H. apply shm_is_renaming in H
+    as (o & N & F & out & flips & perm & cperm & H1 & _ & H2 & H3 & _ & _ & _ & _ & _ & H4).
+  cbv zeta in H4. destruct H4 as (S1 & _ & _ & _ & _ & Po & _ & _ & _ & _ & _ & Hp & Hv & Hc).
+  exists o, N, F, out, (subst_lit flips perm).
+  split; [exact H1|]. split; [exact H2|]. split; [exact H3|]. split; [exact S1|]. split; [exact Po|].
+  split; [exact Hp|]. split; [exact Hv|exact Hc].
+Qed.
